@@ -87,12 +87,51 @@ def gen_cases(rng, tier):
         yield c, t + ["big"]
 
 
+def huge_ignored_case(rng, kind):
+    """a record the stream parser must IGNORE (foreign request id, stale Params, earlier stream) whose content + padding exceeds
+    65535 bytes, in the middle of the active stream; the padding bytes look like a record of the active stream"""
+    rid = 1
+    role = FILTER if kind == "earlier-stream" else RESPONDER
+    fake = flat([record(STDIN, rid, list(b"SMUGGLED"), 0)])          # 16 bytes that must stay padding
+    P, pad = rng.choice([(65535, 1), (65535, 17), (65400, 200), (65281, 255)])
+    padding = (fake + [0] * pad)[:pad] if pad >= 16 else [0] * pad
+    if kind == "foreign-id":
+        huge = header(STDIN, 2, P, pad) + [rng.randrange(256) for _ in range(P)] + padding
+        recs = minimal_preamble(rid, role) + [record(STDIN, rid, list(b"first-part;"), 0)]
+        tail = [record(STDIN, rid, list(b"second-part"), 3), record(STDIN, rid, [], 0)]
+    elif kind == "stale-params":
+        huge = header(PARAMS, rid, P, pad) + [rng.randrange(256) for _ in range(P)] + padding
+        recs = minimal_preamble(rid, role) + [record(STDIN, rid, list(b"first-part;"), 0)]
+        tail = [record(STDIN, rid, list(b"second-part"), 3), record(STDIN, rid, [], 0)]
+    else:
+        # Filter, Data selected: a late Stdin record is ignored
+        huge = header(STDIN, rid, P, pad) + [rng.randrange(256) for _ in range(P)] + padding
+        recs = minimal_preamble(rid, role) + [record(STDIN, rid, [], 0), record(DATA, rid, list(b"first-part;"), 0)]
+        tail = [record(DATA, rid, list(b"second-part"), 3), record(DATA, rid, [], 0)]
+    wire = flat(recs) + huge + flat(tail)
+    B = rng.choice([64, 8192, 70000])
+    ops = ([[5, DATA]] if kind == "earlier-stream" else [])
+    for _ in range(len(wire) // max(8, B // 2) + 8):
+        ops += [[0, 10 ** 6], [2, 10 ** 6], [4, 10 ** 6], [3]]
+    return "str_run " + " ".join(fmt_arg(x) for x in [[B], [1], wire] + ops), ["stream", "role%d" % role, "huge-ignored"]
+
+
+_gen_cases_base = gen_cases
+
+
+def gen_cases(rng, tier):
+    yield from _gen_cases_base(rng, tier)
+    for kind in ("foreign-id", "stale-params", "earlier-stream"):
+        for _ in range(1 if tier == "quick" else 8):
+            yield huge_ignored_case(rng, kind)
+
+
 def nontrivial(line, tags):
-    return any(t in tags for t in ("mixed-dest", "junk", "small-buffer"))
+    return any(t in tags for t in ("mixed-dest", "junk", "small-buffer", "huge-ignored"))
 
 
 def min_classes(tier):
-    return {"mixed-dest": 300, "small-buffer": 200, "zero-dest": 100, "set-stream": 100, "big": 2, "role1": 100, "role2": 100, "role3": 100}
+    return {"mixed-dest": 300, "small-buffer": 200, "zero-dest": 100, "set-stream": 100, "big": 2, "huge-ignored": 3, "role1": 100, "role2": 100, "role3": 100}
 
 
 def oracle(line, impl_line):
